@@ -17,7 +17,7 @@ if [ $rc -ne 0 ]; then git -C /repo checkout -- .; exit $rc; fi
 if ! cargo build --offline 2>/dev/null >/dev/null; then echo "MUTANT DOES NOT COMPILE"; git -C /repo checkout -- .; exit 4; fi
 cd /verif
 for p in "$@"; do
-  out=$(./check $p 2>&1)
+  out=$(VERIF_NO_EVIDENCE=1 ./check $p 2>&1)
   echo "$out" | grep -E "^VIOLATION|tier=" | sed "s/^/[$p] /"
 done
 git -C /repo checkout -- .
